@@ -90,7 +90,20 @@ func main() {
 		os.Exit(2)
 	}
 	defer w.e.Close()
+	emitted := 0
 	emit := func(k *Case) {
+		// order lists per account grow with every new-order case and are walked by the handlers:
+		// start over with a fresh environment now and then to stay linear
+		emitted++
+		if emitted%2500 == 0 {
+			w.e.Close()
+			nw, err := newWorld()
+			if err != nil {
+				fmt.Fprintln(os.Stderr, "environment:", err)
+				os.Exit(2)
+			}
+			*w = *nw
+		}
 		var line, impl string
 		func() {
 			defer func() {
